@@ -1,8 +1,39 @@
 (* Property C14 -- states behave as values: equality, copy and serialization agree.
-   Statements only; proofs live in Proofs/C14_*.v. *)
-From Coq Require Import List Ascii String Bool PrimFloat.
-From Verif Require Import Base.Result Base.Str Base.Sexp Base.PyDict Base.Float Model.State Proofs.C14_Eq.
+   Statements only; proofs live in Proofs/C14_*.v.
+
+   Model: Model/State.v (State.__eq__ / copy / serialize as the code computes them: sets of texts).
+   Spec : Spec/State.v (State_same: the same set of ground facts and the same set of (ground fluent, value) pairs,
+          two values being the same when they are the same binary64 datum).
+   den s  = the facts and valued fluents the state prints (Proofs/C14_Main.den).
+   Hypotheses, all on the two states at hand:
+     state_ok   every name is a clean token (non-empty, lower case, no blank / parenthesis), facts are positive, no predicate
+                is called "=";
+     nums_ok    repr/float on the values that occur: float(repr x) is x, and equal data print equally (CPython facts,
+                re-checked by the harness on every value it meets);
+     nums_clean repr x is a clean token.
+   What the code does with values (checked on the implementation by harness/ops_c14.value_facts): it compares their
+   repr TEXT.  That is the same as comparing the data (C14_eq) and differs from IEEE comparison exactly where IEEE
+   comparison is not an equivalence: nan (C14_eq_ieee_nan) and the two zeros (C14_eq_ieee_zero).
+
+   The library's own reader of a state text (TrajectoryParser.parse_state) is the subject of C10; for it the
+   read-back half of the property fails on fluents with a repeated argument (finding D07):
+   C14_library_readback_partial / C14_library_readback_refuted. *)
+From Coq Require Import List Ascii String Bool PrimFloat Permutation.
+From Verif Require Import Base.Result Base.Str Base.Sexp Base.PyDict Base.Float Model.Tokenizer Model.Domain Model.State
+  Model.Trajectory Spec.Pddl Spec.State
+  Proofs.C14_Text Proofs.C14_Spec Proofs.C14_Eq Proofs.C14_Main Proofs.C14_Serialize Proofs.C14_Examples Proofs.C10_State.
+From Verif Require Model.Store Proofs.C07_Sep Proofs.C14_Store.
 Import ListNotations.
+
+(* ---------- equality ---------- *)
+Theorem C14_eq : forall num_text parse_num s t,
+  state_ok s = true -> state_ok t = true -> nums_ok num_text parse_num (values s ++ values t) ->
+  (state_eq num_text s t = true <-> State_same (den s) (den t)).
+Proof. exact state_eq_same. Qed.
+
+(* the decidable reading used by the correspondence is the Prop reading *)
+Theorem C14_spec_reflect : forall a b, state_same a b = true <-> State_same a b.
+Proof. exact state_same_iff. Qed.
 
 Theorem C14_eq_refl : forall (num_text : float -> string) s, state_eq num_text s s = true.
 Proof. exact state_eq_refl. Qed.
@@ -14,6 +45,118 @@ Theorem C14_eq_trans : forall (num_text : float -> string) s t u,
   state_eq num_text s t = true -> state_eq num_text t u = true -> state_eq num_text s u = true.
 Proof. exact state_eq_trans. Qed.
 
+(* order of dicts and sets, dictionary keys, types and is_init play no role *)
+Theorem C14_eq_order : forall (num_text : float -> string) s s',
+  Permutation (all_preds s) (all_preds s') ->
+  Permutation (dvalues (st_fluents s)) (dvalues (st_fluents s')) ->
+  state_eq num_text s s' = true.
+Proof. exact state_eq_perm. Qed.
+
+(* whatever the order in which a state is built from its components (no fluent assigned twice) *)
+Theorem C14_build_order : forall (num_text : float -> string) init init' cs cs',
+  Permutation cs cs' -> Forall gp_wf (comp_facts cs) -> NoDup (map pf_untyped (comp_fluents cs)) ->
+  state_eq num_text (build_state init cs) (build_state init' cs') = true.
+Proof. exact build_order. Qed.
+
+(* values: the code's comparison is data identity; IEEE comparison would not do *)
+Theorem C14_eq_ieee_nan : (nan =? nan)%float = false /\ same_value nan nan = true.
+Proof. exact ieee_nan_irreflexive. Qed.
+Theorem C14_eq_ieee_zero : (0 =? -0)%float = true /\ same_value 0%float (-0)%float = false.
+Proof. exact ieee_zeros_identified. Qed.
+Theorem C14_eq_ieee_witness :
+  state_eq ex_num_text ex_s ex_s = true /\ ieee_fluents_equal (den_fluents ex_s) (den_fluents ex_s) = false /\
+  state_eq ex_num_text ex_s ex_u = false /\
+  ieee_fluents_equal (filter (fun kv => negb (String.eqb (fst (fst kv)) "h")) (den_fluents ex_s))
+                     (filter (fun kv => negb (String.eqb (fst (fst kv)) "h")) (den_fluents ex_u)) = true.
+Proof. exact ex_ieee_differs. Qed.
+
+(* ---------- copy ---------- *)
+(* as a value the copy IS the original (same fields); so it is equal to it, denotes and serializes the same.
+   A copied set may iterate in another order: C14_eq_order.  Independence (no shared mutable object among what
+   State.copy copies) is an aliasing fact checked on the implementation by the harness' mutation test. *)
+Theorem C14_copy_value : forall s, state_copy s = s.
+Proof. exact state_copy_id. Qed.
+
+Theorem C14_copy : forall (num_text : float -> string) s,
+  state_eq num_text (state_copy s) s = true /\ state_eq num_text s (state_copy s) = true /\
+  serialize num_text (state_copy s) = serialize num_text s.
+Proof. exact state_copy_props. Qed.
+
+(* independence in the store model of C07 (Model/Store.v: the footprint of State.copy): in a store where every state
+   owns its cells, the copy's dict, set and value cells lie in a fresh region -- it shares no cell with any state that
+   existed before, the original included -- and copying writes nothing outside that region *)
+Theorem C14_copy_independent : forall (m : Store.mstate) s src,
+  C07_Sep.StInv C07_Sep.own_region m -> s < List.length (Store.sts m) -> src = nth s (Store.sts m) Store.dflt_s ->
+  (forall l, In l (Store.st_cells (fst (Store.ev_copy_state m src))) -> forall s', s' < List.length (Store.sts m) ->
+             ~ In l (Store.st_cells (nth s' (Store.sts m) Store.dflt_s))) /\
+  (forall l, In l (Store.writes (snd (Store.ev_copy_state m src))) -> fst l = Store.OSt (List.length (Store.sts m))).
+Proof. exact C14_Store.copy_independent. Qed.
+
+(* ---------- serialization ---------- *)
+(* the library's reader (C11) returns the token tree of the state ... *)
+Theorem C14_serialize_parse : forall num_text m s,
+  state_ok s = true -> nums_clean num_text s -> parse m (s2t (serialize num_text s)) = Ok (state_sexp num_text s).
+Proof. exact parse_serialize. Qed.
+
+(* ... whose reading is the state *)
+Theorem C14_serialize_reads_back : forall num_text parse_num m s,
+  state_ok s = true -> nums_clean num_text s -> (forall x, In x (values s) -> num_ok num_text parse_num x) ->
+  exists st, read_text parse_num m (serialize num_text s) = Some (st_init s, st) /\ State_same st (den s).
+Proof. exact serialize_reads_back. Qed.
+
+(* equal states serialize to texts that read back as the same state, unequal states never do *)
+Theorem C14_serialize : forall num_text parse_num m s t,
+  state_ok s = true -> state_ok t = true -> nums_clean num_text s -> nums_clean num_text t ->
+  nums_ok num_text parse_num (values s ++ values t) ->
+  exists a b, read_text parse_num m (serialize num_text s) = Some (st_init s, a) /\
+              read_text parse_num m (serialize num_text t) = Some (st_init t, b) /\
+              (State_same a b <-> state_eq num_text s t = true).
+Proof. exact serialize_injective. Qed.
+
+(* ---------- the library's own reader of a state (TrajectoryParser.parse_state) ---------- *)
+Theorem C14_library_readback_partial : forall dom num_text parse_num problem m s,
+  state_ok s = true -> nums_clean num_text s -> (forall x, In x (values s) -> num_ok num_text parse_num x) ->
+  parseable dom problem s ->
+  exists e s', parse m (s2t (serialize num_text s)) = Ok (SList (Atom (head_tok s) :: e)) /\
+               parse_state dom parse_num problem e = Ok s' /\ State_same (den s') (den s).
+Proof. exact library_readback. Qed.
+
+Theorem C14_library_readback_refuted :
+  exists dom s e s', state_ok s = true /\ nums_clean ex_num_text s /\
+    parse MFile (s2t (serialize ex_num_text s)) = Ok (SList (Atom (head_tok s) :: e)) /\
+    parse_state dom ex_parse_num None e = Ok s' /\ state_eq ex_num_text s' s = false.
+Proof. exact library_readback_refuted. Qed.
+
+(* ---------- the hypotheses are satisfiable ---------- *)
+Theorem C14_example :
+  state_ok ex_s = true /\ state_ok ex_t = true /\ nums_ok ex_num_text ex_parse_num (values ex_s ++ values ex_t) /\
+  nums_clean ex_num_text ex_s /\ nums_clean ex_num_text ex_t /\
+  state_eq ex_num_text ex_s ex_t = true /\ state_eq ex_num_text ex_s ex_u = false.
+Proof. exact ex_hypotheses. Qed.
+
+Theorem C14_build_example :
+  Forall gp_wf (comp_facts ex_components) /\ NoDup (map pf_untyped (comp_fluents ex_components)) /\
+  Permutation ex_components (rev ex_components) /\
+  st_preds (build_state true ex_components) <> st_preds (build_state true (rev ex_components)).
+Proof. exact ex_build_hypotheses. Qed.
+
+Print Assumptions C14_eq.
+Print Assumptions C14_spec_reflect.
 Print Assumptions C14_eq_refl.
 Print Assumptions C14_eq_sym.
 Print Assumptions C14_eq_trans.
+Print Assumptions C14_eq_order.
+Print Assumptions C14_build_order.
+Print Assumptions C14_eq_ieee_nan.
+Print Assumptions C14_eq_ieee_zero.
+Print Assumptions C14_eq_ieee_witness.
+Print Assumptions C14_copy_value.
+Print Assumptions C14_copy.
+Print Assumptions C14_copy_independent.
+Print Assumptions C14_serialize_parse.
+Print Assumptions C14_serialize_reads_back.
+Print Assumptions C14_serialize.
+Print Assumptions C14_library_readback_partial.
+Print Assumptions C14_library_readback_refuted.
+Print Assumptions C14_example.
+Print Assumptions C14_build_example.
